@@ -475,8 +475,22 @@ func c12R5(c *core.Ctx, r *core.Report, ro *core.Roles, sorter *ssa.Function) {
 		if core.IsNilConst(st.Store.Val) {
 			continue
 		}
-		r.Check(helpers[st.Fn] || helpers[core.TopLevel(st.Fn)], "C12.R5", "writers:"+bs.recv.Obj().Name()+"."+bs.dispatch+"@"+core.FnName(st.Fn), c.Pos(st.Instr.Pos()),
-			"the dispatch list is written only by the bootstrap routine and its helpers")
+		// ... and a helper that writes it is called by nobody else (an exported helper of the delegate that another
+		// stage also calls would let that stage extend the chain out of turn)
+		top := core.TopLevel(st.Fn)
+		okWriter := helpers[st.Fn] || helpers[top]
+		if okWriter && top != bs.fn {
+			for _, cs := range c.CallSites(func(com *ssa.CallCommon) bool { return core.IsCallTo(com, top) }) {
+				if caller := core.TopLevel(cs.Parent()); !helpers[caller] && caller != bs.fn {
+					okWriter = false
+				}
+			}
+			if len(c.FuncValueUses(top)) != 0 {
+				okWriter = false
+			}
+		}
+		r.Check(okWriter, "C12.R5", "writers:"+bs.recv.Obj().Name()+"."+bs.dispatch+"@"+core.FnName(st.Fn), c.Pos(st.Instr.Pos()),
+			"the dispatch list is written only by the bootstrap routine and by helpers that nothing else calls")
 	}
 	// eager-create: each participant is created under its own component name (a wrong key would fill its slot with another one)
 	bsTable(c, r, bs, "C12.R5", map[string]bool{"chain-order": true, "managed": true, "eager-create": true})
